@@ -159,6 +159,98 @@ def initial_comp(name):
     }[name]()
 
 
+def _conjuncts(t):
+    if z3.is_and(t):
+        out = []
+        for c in t.children():
+            out.extend(_conjuncts(c))
+        return out
+    return [t]
+
+
+def skolemize_goal(goal, pc, max_inst=120, extra_terms=()):
+    """Proof assistance, logically neutral: universally quantified integer variables at the top of the goal are replaced by fresh
+    constants (proving the body for a fresh constant proves the universal), and every assumption of the form `forall i:Int. P(i)`
+    is ADDITIONALLY instantiated at those constants (an instance of an assumption is a consequence of it).  E-matching through
+    seq.nth is unreliable; the instances at the goal's own index are the ones a proof needs."""
+    import os
+    if os.environ.get("VERIF_NO_SKOLEM"):
+        return goal, []
+    parts = _conjuncts(goal)
+    if not any((z3.is_quantifier(p) and p.is_forall()) or (z3.is_or(p) and any(z3.is_quantifier(d) and d.is_forall() for d in p.children()))
+               for p in parts):
+        return goal, []
+    sks = []
+    new_parts = []
+    def sk_one(p):
+        consts = [so.fresh("sk", p.var_sort(k)) for k in range(p.num_vars())]
+        sks.extend(consts)
+        return z3.substitute_vars(p.body(), *reversed(consts))
+
+    for p in parts:
+        if z3.is_quantifier(p) and p.is_forall() and p.num_vars() <= 2:
+            new_parts.append(sk_one(p))
+        elif z3.is_or(p) and sum(1 for d in p.children() if z3.is_quantifier(d) and d.is_forall() and d.num_vars() <= 2) == 1:
+            # (forall x. P(x)) or B  ==  forall x. (P(x) or B)   (x not free in B)
+            new_parts.append(z3.Or([sk_one(d) if (z3.is_quantifier(d) and d.is_forall() and d.num_vars() <= 2) else d for d in p.children()]))
+        else:
+            new_parts.append(p)
+    if not sks and not (extra_terms and any(z3.is_quantifier(p) or z3.is_or(p) for p in parts)):
+        return goal, []
+    # the current loop indexes are further integer terms worth instantiating at (the element the body works on)
+    seen_ids = set()
+    for t in extra_terms:
+        if t.get_id() not in seen_ids and not z3.is_int_value(t):
+            seen_ids.add(t.get_id())
+            sks.append(t)
+    insts = []
+    for h in pc:
+        for c in _conjuncts(h):
+            if z3.is_quantifier(c) and c.is_forall() and c.num_vars() == 1:
+                for sk in sks:
+                    if sk.sort() != c.var_sort(0):
+                        continue
+                    insts.append(z3.substitute_vars(c.body(), sk))
+                    if len(insts) >= max_inst:
+                        break
+    # second round: positions of keys (dict_pos(m, k), ground) produced by the first round are indexes worth instantiating at
+    pos_terms = {}
+    for t in insts:
+        todo = [t]
+        seen = set()
+        while todo:
+            x = todo.pop()
+            if x.get_id() in seen:
+                continue
+            seen.add(x.get_id())
+            if z3.is_app(x):
+                if x.decl().name() == "dict_pos" and not _has_var(x):
+                    pos_terms[x.get_id()] = x
+                todo.extend(x.children())
+    if pos_terms:
+        for h in pc:
+            for c in _conjuncts(h):
+                if z3.is_quantifier(c) and c.is_forall() and c.num_vars() == 1 and c.var_sort(0) == z3.IntSort():
+                    for pt in list(pos_terms.values())[:4]:
+                        if len(insts) < 2 * max_inst:
+                            insts.append(z3.substitute_vars(c.body(), pt))
+    return (z3.And(new_parts) if len(new_parts) > 1 else new_parts[0]), insts
+
+
+def _has_var(t):
+    todo = [t]
+    seen = set()
+    while todo:
+        x = todo.pop()
+        if x.get_id() in seen:
+            continue
+        seen.add(x.get_id())
+        if z3.is_var(x):
+            return True
+        todo.extend(x.children())
+    return False
+
+
 class Obligation:
     def __init__(self, name, assumptions, goal, kind, line, extra=None):
         self.name = name
@@ -252,7 +344,13 @@ class Engine:
         extra = dict(extra or {})
         extra.setdefault("path", list(self.path_notes))
         extra["sigs"] = getattr(self, "cur_sigs", {})
-        self.obligations.append(Obligation(name, list(self.st.pc), goal, kind, line, extra))
+        idx = []
+        if self.st.frames:
+            for nm, lv in self.st.frames[-1].locals.items():
+                if nm.startswith("_i") and isinstance(lv, SV):
+                    idx.append(z3.simplify(Val.i(lv.term)))
+        goal, insts = skolemize_goal(goal, self.st.pc, extra_terms=idx)
+        self.obligations.append(Obligation(name, list(self.st.pc) + insts, goal, kind, line, extra))
 
     # ------------------------------------------------------------- branching
     def choose(self, n, label=""):
